@@ -42,6 +42,12 @@ type Isqrt struct {
 func (f *Isqrt) Call(s *slip.Scope, args slip.List, depth int) (result slip.Object) {
 	slip.CheckArgCount(s, depth, f, args, 1, 1)
 	switch ta := args[0].(type) {
+	case slip.Fixnum:
+		if ta < 0 {
+			slip.ArithmeticPanic(s, depth, f, args, "only non-negative values are allowed")
+		}
+		// A float64 can not represent all fixnums so use the exact integer square root.
+		result = slip.Fixnum(new(big.Int).Sqrt(big.NewInt(int64(ta))).Int64())
 	case *slip.Bignum:
 		// Sqrt sets its receiver so use a new big.Int to leave the argument unchanged.
 		result = (*slip.Bignum)(new(big.Int).Sqrt((*big.Int)(ta)))
